@@ -418,6 +418,12 @@ fn io_lane(io_seed: u64, cap: usize) -> (Vec<Step>, FullMode, bool) {
     (lane, mode, fatal)
 }
 
+/// How often the io lane is replayed (interrupt / short-write storms that last through long bodies).
+fn io_repeat(io_seed: u64, cap: usize) -> u32 {
+    let mut r = Rng::new(io_seed ^ (cap as u64).wrapping_mul(0x51ED_270B) ^ 0xABCD);
+    *r.pick(&[0u32, 0, 0, 2, 8, 40])
+}
+
 fn run_encode(values: &[ValSpec], only_sink: Option<Sink>, only_cap: Option<u32>, io_seed: u64, obs: &Rc<RefCell<Obs>>) -> Result<(), Violation> {
     // reference: the unbounded sink, plus the internal write boundaries
     let mut rec = Rec { bytes: Vec::new(), cuts: Vec::new() };
@@ -660,8 +666,10 @@ fn run_encode(values: &[ValSpec], only_sink: Option<Sink>, only_cap: Option<u32>
                 }
                 Sink::IoWriter => {
                     let (lane, mode, fatal) = io_lane(io_seed, c);
-                    let budget = lane.len() as u64 + 2 * cuts.len() as u64 + n as u64 + 16;
+                    let repeat = io_repeat(io_seed, c);
+                    let budget = lane.len() as u64 * (1 + repeat as u64) + 2 * cuts.len() as u64 + n as u64 + 16;
                     let core = SinkCore::new(lane, Some(c), budget, obs.clone());
+                    core.borrow_mut().repeat_left = repeat;
                     core.borrow_mut().full_mode = mode;
                     core.borrow_mut().allow_fatal = fatal;
                     let mut w = Writer::new(SimSink(core.clone()));
